@@ -95,20 +95,18 @@ Proof. unfold todo. rewrite filter_In, negb_true_iff. tauto. Qed.
 Lemma todo_nil rs : todo rs [] = rs.
 Proof. unfold todo. apply filter_true. intros. reflexivity. Qed.
 
-Lemma idxs_from_spec rs : NoDup rs -> forall calc,
-  idxs_from rs calc = (map (fun r => (gen_atom_idx r, gen_component r)) (todo rs calc), calc ++ todo rs calc).
+Lemma idxs_of_todo rs calc : idxs_of rs calc = map (fun r => (gen_atom_idx r, gen_component r)) (todo rs calc).
+Proof. reflexivity. Qed.
+
+Lemma todo_snoc rs calc a : ~ In a rs -> todo rs (calc ++ [a]) = todo rs calc.
 Proof.
-  induction 1 as [|a t Ha Ht IH]; intros calc.
-  - cbn. rewrite app_nil_r. reflexivity.
-  - cbn [idxs_from todo filter]. destruct (mem a calc) eqn:Em; cbn [negb].
-    + rewrite IH. reflexivity.
-    + rewrite IH.
-      assert (Et : todo t (calc ++ [a]) = todo t calc).
-      { unfold todo. apply filter_ext_in. intros r Hr. rewrite mem_app. cbn [mem existsb].
-        destruct (Nat.eqb r a) eqn:Era; [apply Nat.eqb_eq in Era; subst; contradiction|].
-        rewrite !orb_false_r. reflexivity. }
-      rewrite Et. cbn [map]. rewrite <- app_assoc. reflexivity.
+  intros Ha. unfold todo. apply filter_ext_in. intros r Hr. rewrite mem_app. cbn [mem existsb].
+  destruct (Nat.eqb r a) eqn:Era; [apply Nat.eqb_eq in Era; subst; contradiction|].
+  rewrite !orb_false_r. reflexivity.
 Qed.
+
+Lemma mark_serial_flat i k : gen_mark_serial i k = flat i k.
+Proof. unfold gen_mark_serial, flat. lia. Qed.
 
 (* list.remove *)
 Lemma remove_first_filter r l :
@@ -269,12 +267,13 @@ Hypothesis collect_perm : forall l, Permutation l (collect l).
 
 Notation row_fn := (row_fn E Meth grad).
 Notation jobs_of := (jobs_of E Meth grad).
+Notation job_of := (job_of E Meth grad).
 Notation calculate := (calculate_gen E Meth grad row_of collect).
 
 Lemma jobs_rows cdiff m x h rows :
   map fst (jobs_of row_of cdiff m x h (map (fun r => (gen_atom_idx r, gen_component r)) rows)) = rows.
 Proof.
-  unfold Model.jobs_of. rewrite !map_map. cbn [fst snd].
+  unfold Model.jobs_of, Model.job_of. rewrite !map_map. cbn [fst snd].
   rewrite <- (map_id rows) at 2. apply map_ext. intros r. apply row_of_ok.
 Qed.
 
@@ -282,44 +281,51 @@ Lemma jobs_in cdiff m x h rows r : In r rows ->
   In (r, row_fn cdiff m x (grad m x) h (gen_atom_idx r) (gen_component r))
      (jobs_of row_of cdiff m x h (map (fun r => (gen_atom_idx r, gen_component r)) rows)).
 Proof.
-  intros Hin. unfold Model.jobs_of. rewrite map_map. cbn [fst snd].
+  intros Hin. unfold Model.jobs_of, Model.job_of. rewrite map_map. cbn [fst snd].
   apply in_map_iff. exists r. split; [|exact Hin]. rewrite row_of_ok. reflexivity.
 Qed.
 
 (* what one calculate() call does to the state, from ANY starting state *)
 Lemma calculate_spec cdiff m x h n (s : st) :
   let s' := calculate cdiff m x h n s in
-  calc_rows E s' = calc_rows E s ++ todo (seq 0 (3 * n)) (calc_rows E s) /\
+  Permutation (calc_rows E s') (calc_rows E s ++ todo (seq 0 (3 * n)) (calc_rows E s)) /\
+  ((forall l, collect l = l) -> calc_rows E s' = calc_rows E s ++ todo (seq 0 (3 * n)) (calc_rows E s)) /\
   forall r j, hess E s' r j =
     if (r <? 3 * n)%nat && negb (mem r (calc_rows E s))
     then row_fn cdiff m x (grad m x) h (gen_atom_idx r) (gen_component r) j
     else hess E s r j.
 Proof.
-  unfold Model.calculate_gen, idxs_to_calculate. rewrite n_rows_eq.
-  rewrite (idxs_from_spec _ (seq_NoDup _ _)). cbn [calc_rows hess]. split; [reflexivity|].
-  intros r j. set (rows := todo (seq 0 (3 * n)) (calc_rows E s)).
+  unfold Model.calculate_gen, idxs_to_calculate. rewrite n_rows_eq, idxs_of_todo. cbn [calc_rows hess].
+  set (rows := todo (seq 0 (3 * n)) (calc_rows E s)).
   set (jobs := jobs_of row_of cdiff m x h (map (fun r => (gen_atom_idx r, gen_component r)) rows)).
-  assert (Hnd : NoDup (map fst jobs)).
-  { unfold jobs. rewrite jobs_rows. unfold rows, todo. apply NoDup_filter'. apply seq_NoDup. }
-  rewrite <- (place_perm jobs (collect jobs) (hess E s) Hnd (collect_perm jobs)).
-  destruct ((r <? 3 * n)%nat && negb (mem r (calc_rows E s))) eqn:Ec.
-  - apply andb_true_iff in Ec. destruct Ec as [Hlt Hm]. apply Nat.ltb_lt in Hlt. apply negb_true_iff in Hm.
-    apply place_in; [exact Hnd|]. unfold jobs. apply jobs_in. unfold rows. apply todo_In.
-    split; [apply in_seq; lia|exact Hm].
-  - apply place_notin. unfold jobs. rewrite jobs_rows. unfold rows. rewrite todo_In, in_seq.
-    intros [Hlt Hm]. rewrite Hm in Ec. cbn [negb] in Ec.
-    assert (Hl : (r <? 3 * n)%nat = true) by (apply Nat.ltb_lt; lia). rewrite Hl in Ec. discriminate.
+  assert (Hrows : map fst jobs = rows) by (unfold jobs; apply jobs_rows).
+  split; [|split].
+  - apply Permutation_app_head. rewrite <- Hrows. apply Permutation_sym. apply Permutation_map. apply collect_perm.
+  - intros Hid. rewrite Hid, Hrows. reflexivity.
+  - intros r j.
+    assert (Hnd : NoDup (map fst jobs)).
+    { rewrite Hrows. unfold rows, todo. apply NoDup_filter'. apply seq_NoDup. }
+    rewrite <- (place_perm jobs (collect jobs) (hess E s) Hnd (collect_perm jobs)).
+    destruct ((r <? 3 * n)%nat && negb (mem r (calc_rows E s))) eqn:Ec.
+    + apply andb_true_iff in Ec. destruct Ec as [Hlt Hm]. apply Nat.ltb_lt in Hlt. apply negb_true_iff in Hm.
+      apply place_in; [exact Hnd|]. unfold jobs. apply jobs_in. unfold rows. apply todo_In.
+      split; [apply in_seq; lia|exact Hm].
+    + apply place_notin. rewrite Hrows. unfold rows. rewrite todo_In, in_seq.
+      intros [Hlt Hm]. rewrite Hm in Ec. cbn [negb] in Ec.
+      assert (Hl : (r <? 3 * n)%nat = true) by (apply Nat.ltb_lt; lia). rewrite Hl in Ec. discriminate.
 Qed.
 
 (* a fresh calculator: every row 3i+k holds the finite difference for atom i, component k *)
 Lemma rows_complete cdiff m x h n (H0 : mat) :
   let s' := calculate cdiff m x h n (mkSt E [] H0) in
-  calc_rows E s' = seq 0 (3 * n) /\
+  Permutation (calc_rows E s') (seq 0 (3 * n)) /\
+  ((forall l, collect l = l) -> calc_rows E s' = seq 0 (3 * n)) /\
   forall i k j, (i < n)%nat -> (k < 3)%nat ->
     hess E s' (flat i k) j = row_fn cdiff m x (grad m x) h i k j.
 Proof.
-  destruct (calculate_spec cdiff m x h n (mkSt E [] H0)) as [Hc Hh]. cbn [calc_rows hess] in *.
-  split; [rewrite Hc, todo_nil; reflexivity|].
+  destruct (calculate_spec cdiff m x h n (mkSt E [] H0)) as [Hp [Hc Hh]]. cbn [calc_rows hess] in *.
+  rewrite todo_nil in Hp, Hc. cbn [app] in Hp, Hc.
+  split; [exact Hp|]. split; [exact Hc|].
   intros i k j Hi Hk. rewrite Hh. cbn [mem existsb negb]. rewrite andb_true_r.
   assert (Hl : (flat i k <? 3 * n)%nat = true) by (apply Nat.ltb_lt; unfold flat; lia).
   rewrite Hl, atom_of_flat, comp_of_flat by exact Hk. reflexivity.
@@ -329,6 +335,7 @@ Qed.
 Notation hybrid := (hybrid_calculate E Meth calculate).
 
 Lemma hybrid_spec lm hm x h n hidxs :
+  (forall l, collect l = l) ->
   NoDup hidxs -> (forall a, In a hidxs -> (a < n)%nat) ->
   exists s2, hybrid lm hm x h n hidxs = Ok E s2 /\
     (forall r j, (r < 3 * n)%nat ->
@@ -338,11 +345,11 @@ Lemma hybrid_spec lm hm x h n hidxs :
          else row_fn false lm x (grad lm x) h (gen_atom_idx r) (gen_component r) j) /\
     (forall r, In r (calc_rows E s2) <-> (r < 3 * n)%nat).
 Proof.
-  intros Hnd Hlt. unfold hybrid_calculate.
+  intros Hid Hnd Hlt. unfold hybrid_calculate.
   assert (Hv : hybrid_valid n hidxs = true).
   { unfold hybrid_valid. apply forallb_forall. intros a Ha. apply Nat.ltb_lt. apply Hlt. exact Ha. }
   rewrite Hv. cbn [negb].
-  destruct (calculate_spec false lm x h n (mkSt E [] (zeros E))) as [Hc1 Hh1]. cbn [calc_rows hess] in Hc1, Hh1.
+  destruct (calculate_spec false lm x h n (mkSt E [] (zeros E))) as [_ [Hc1 Hh1]]. specialize (Hc1 Hid). cbn [calc_rows hess] in Hc1, Hh1.
   set (s1 := calculate false lm x h n (mkSt E [] (zeros E))) in *.
   rewrite todo_nil in Hc1. cbn [app] in Hc1.
   unfold remove_h_method_rows. rewrite Hc1.
@@ -350,7 +357,7 @@ Proof.
   2:{ intros y Hy. apply In_all_hrows in Hy. apply in_seq. apply Hlt in Hy. apply atom_lt_rows in Hy. lia. }
   set (c := filter (fun y => negb (mem y (flat_map hrows_of hidxs))) (seq 0 (3 * n))).
   eexists. split; [reflexivity|].
-  destruct (calculate_spec false hm x h n (mkSt E c (hess E s1))) as [Hc2 Hh2]. cbn [calc_rows hess] in Hc2, Hh2.
+  destruct (calculate_spec false hm x h n (mkSt E c (hess E s1))) as [_ [Hc2 Hh2]]. specialize (Hc2 Hid). cbn [calc_rows hess] in Hc2, Hh2.
   assert (Hmc : forall r, (r < 3 * n)%nat -> mem r c = negb (mem (gen_atom_idx r) hidxs)).
   { intros r Hr. rewrite <- mem_all_hrows. destruct (mem r (flat_map hrows_of hidxs)) eqn:Em; cbn [negb].
     - apply mem_false. unfold c. rewrite filter_In, Em. cbn. intros [_ Hf]. discriminate.
@@ -379,6 +386,32 @@ Proof.
 Qed.
 
 End Calc.
+
+(* the serial loop (lazy generator, mark after store) computes exactly what the pool form with in-order hand-back does *)
+Lemma serial_loop_eq (job : nat * nat -> nat * vec) rows :
+  (forall r, fst (job (gen_atom_idx r, gen_component r)) = r) ->
+  NoDup rows -> forall s : st,
+  serial_loop E job rows s =
+    mkSt E (calc_rows E s ++ todo rows (calc_rows E s))
+           (place (hess E s) (map job (map (fun r => (gen_atom_idx r, gen_component r)) (todo rows (calc_rows E s))))).
+Proof.
+  intros Hjob. induction 1 as [|a t Ha Ht IH]; intros s.
+  - cbn. rewrite app_nil_r. destruct s; reflexivity.
+  - cbn [Model.serial_loop todo filter]. destruct (mem a (calc_rows E s)) eqn:Em; cbn [negb].
+    + apply IH.
+    + rewrite IH. cbn [calc_rows hess fst snd]. rewrite mark_serial_flat, flat_of_row.
+      rewrite (todo_snoc t (calc_rows E s) a Ha). cbn [map Model.place fold_left].
+      rewrite <- app_assoc. reflexivity.
+Qed.
+
+Lemma calculate_serial_eq cdiff m x h n (s : st) :
+  calculate_serial E Meth grad cdiff m x h n s = calculate_gen E Meth grad gen_row_serial (fun l => l) cdiff m x h n s.
+Proof.
+  unfold calculate_serial, Model.calculate_gen, idxs_to_calculate. rewrite n_rows_eq, idxs_of_todo.
+  rewrite serial_loop_eq; [|intros r; unfold Model.job_of; cbn [fst snd]; rewrite row_serial_flat; apply flat_of_row|apply seq_NoDup].
+  f_equal. f_equal. symmetry.
+  apply (jobs_rows gen_row_serial (fun r => eq_trans (row_serial_flat _ _) (flat_of_row r))).
+Qed.
 
 (* ---- symmetrisation ---- *)
 Lemma symmetrise_entry (H : mat) r c : gen_symmetrise E H r c = (H r c + H c r) / two.
@@ -584,6 +617,70 @@ Proof.
     replace (ntr + j - ntr)%nat with j by lia. reflexivity.
   - intros r Hr. unfold Model.s_prime. assert (H1 : (r <? ntr)%nat = true) by (apply Nat.ltb_lt; exact Hr).
     rewrite H1. cbn [orb]. env. ring.
+Qed.
+
+(* ------------------------------------------------------------------ modes vs vectors in the span of the first ntr columns *)
+Lemma dot_lincomb d (x : vec) k (c : nat -> F) (A : mat) :
+  dot d x (fun r => sum k (fun a => c a * A r a)) = sum k (fun a => c a * dot d x (col E A a)).
+Proof.
+  unfold Sums.dot.
+  rewrite (S_sum_ext d _ (fun r => sum k (fun a => x r * (c a * A r a)))) by (intros; rewrite S_sum_scal_l; reflexivity).
+  rewrite (sum_swap F F0 F1 Fadd Fmul Fsub Fopp Fdiv Finv Fth). apply S_sum_ext. intros a Ha.
+  rewrite <- S_sum_scal_l. apply S_sum_ext. intros r Hr. unfold col. ring.
+Qed.
+
+Lemma dot_vdivs_l d (a w : vec) c : dot d (vdivs a c) w = Finv c * dot d a w.
+Proof.
+  unfold Sums.dot, Sums.vdivs. rewrite <- S_sum_scal_l. apply S_sum_ext. intros r Hr.
+  rewrite (Field_theory.Fdiv_def Fth). ring.
+Qed.
+
+(* every returned mode is orthogonal to every vector in the span of the first ntr columns of D *)
+Lemma mode_orth_span d ntr (D Sbar : mat) i (w : vec) (c : nat -> F) :
+  orthonormal_cols d D -> (ntr <= d)%nat ->
+  (forall r, (r < d)%nat -> w r = sum ntr (fun a => c a * D r a)) ->
+  dot d (mode E d ntr D Sbar i) w = 0.
+Proof.
+  intros HD Hd Hw.
+  assert (Hraw : dot d (mode_raw d ntr D Sbar i) w = 0).
+  { rewrite (dot_ext F F0 Fadd Fmul d _ (mode_raw d ntr D Sbar i) _ (fun r => sum ntr (fun a => c a * D r a)))
+      by (intros r Hr; first [apply Hw; exact Hr | reflexivity]).
+    rewrite dot_lincomb. rewrite (S_sum_ext ntr _ (fun _ => 0)); [apply S_sum_zero|].
+    intros a Ha. rewrite (mode_orth_tr d ntr D Sbar i a HD Ha Hd). ring. }
+  unfold mode. destruct (i <? ntr)%nat; [exact Hraw|].
+  unfold normalised. env. rewrite dot_vdivs_l, Hraw. ring.
+Qed.
+
+(* the returned (normalised) vibrational modes are orthonormal when sqrt 1 = 1 *)
+Lemma mode_gram_normalised ntr nv (D Sbar : mat) i j :
+  Fsqrt 1 = 1 ->
+  orthonormal_cols (ntr + nv) D -> orthonormal_cols nv Sbar -> (i < nv)%nat -> (j < nv)%nat ->
+  dot (ntr + nv) (mode E (ntr + nv) ntr D Sbar (ntr + i)) (mode E (ntr + nv) ntr D Sbar (ntr + j))
+  = if Nat.eqb i j then 1 else 0.
+Proof.
+  intros Hs HD HS Hi Hj. unfold mode.
+  assert (H1 : (ntr + i <? ntr)%nat = false) by (apply Nat.ltb_ge; lia).
+  assert (H2 : (ntr + j <? ntr)%nat = false) by (apply Nat.ltb_ge; lia).
+  rewrite H1, H2.
+  set (mi := mode_raw (ntr + nv) ntr D Sbar (ntr + i)). set (mj := mode_raw (ntr + nv) ntr D Sbar (ntr + j)).
+  assert (Ni : dot (ntr + nv) mi mi = 1).
+  { unfold mi. rewrite (mode_gram ntr nv D Sbar i i HD Hi Hi), (HS i i Hi Hi), Nat.eqb_refl. reflexivity. }
+  assert (Nj : dot (ntr + nv) mj mj = 1).
+  { unfold mj. rewrite (mode_gram ntr nv D Sbar j j HD Hj Hj), (HS j j Hj Hj), Nat.eqb_refl. reflexivity. }
+  change (normalised E (ntr + nv) mi) with (vdivs mi (Fsqrt (dot (ntr + nv) mi mi))).
+  change (normalised E (ntr + nv) mj) with (vdivs mj (Fsqrt (dot (ntr + nv) mj mj))).
+  rewrite Ni, Nj, Hs.
+  rewrite dot_vdivs_l.
+  rewrite (dot_comm F F0 F1 Fadd Fmul Fsub Fopp Fdiv Finv Fth), dot_vdivs_l.
+  rewrite (dot_comm F F0 F1 Fadd Fmul Fsub Fopp Fdiv Finv Fth).
+  unfold mi, mj. rewrite (mode_gram ntr nv D Sbar i j HD Hi Hj), (HS i j Hi Hj).
+  destruct (Nat.eqb i j); field; apply (F_1_neq_0 Fth).
+Qed.
+
+(* symmetrising twice = symmetrising once *)
+Lemma symmetrise_idem (H : mat) r c : two <> 0 -> gen_symmetrise E (gen_symmetrise E H) r c = gen_symmetrise E H r c.
+Proof.
+  intros H2. apply symmetrise_fix; [exact H2|]. rewrite !symmetrise_entry. f_equal. ring.
 Qed.
 
 End Lem.
